@@ -114,44 +114,72 @@ def match_known(known, v):
 
 
 def run_workers(binp, prop, tier, seed, total, sweep_max, budget_s, tmp, race=False):
-    per = (total + NPROC - 1) // NPROC
-    procs = []
+    # Work is cut into chunks, each run by a fresh worker process (runs that end in a detected
+    # hang leak their goroutines; under the race detector memory grows quickly): at most NPROC
+    # processes at a time.
+    chunk = int(os.environ.get("VERIF_CHUNK", "600" if race else "4000"))
+    chunk = max(1, min(chunk, (total + NPROC - 1) // NPROC))
+    tasks = []
+    frm = 0
+    while frm < total:
+        cnt = min(chunk, total - frm)
+        tasks.append((len(tasks), frm, cnt))
+        frm += cnt
     env0 = dict(os.environ)
     # src/cmd (linked in for the binary's signal handling) looks for its settings directory when it is initialised
     os.makedirs(os.path.join(tmp, "xdg", "process-compose"), exist_ok=True)
     env0["XDG_CONFIG_HOME"] = os.path.join(tmp, "xdg")
     env0.update({"VERIF_PROP": prop, "VERIF_TIER": tier, "VERIF_SEED": str(seed), "VERIF_SWEEP_MAX": str(sweep_max),
-                 "VERIF_BUDGET_S": str(budget_s), "VERIF_REPLAY_DIR": os.path.join(tmp, "replays"),
+                 "VERIF_REPLAY_DIR": os.path.join(tmp, "replays"),
                  "VERIF_TMP": tmp, "VERIF_TREE": repo_rev(), "GORACE": "halt_on_error=0"})
-    for w in range(NPROC):
-        frm = w * per
-        cnt = min(per, total - frm)
-        if cnt <= 0:
-            break
-        env = dict(env0)
-        out = os.path.join(tmp, "w%d.json" % w)
-        env.update({"VERIF_FROM": str(frm), "VERIF_COUNT": str(cnt), "VERIF_OUT": out,
-                    "GOMAXPROCS": str([1, 2, 4, 16][w % 4])})
-        logf = open(os.path.join(tmp, "w%d.log" % w), "w")
-        p = subprocess.Popen([binp, "-test.run", "^TestWorker$", "-test.timeout", "0"], env=env, stdout=logf, stderr=subprocess.STDOUT, cwd=tmp)
-        procs.append((p, out, logf, w))
+    t_end = time.time() + budget_s
+    deadline = t_end + 180
+    running = []
     outs = []
-    deadline = time.time() + budget_s + 180
-    for p, out, logf, w in procs:
-        try:
-            p.wait(timeout=max(1, deadline - time.time()))
-        except subprocess.TimeoutExpired:
-            p.kill()
-            die("worker %d wedged (wall-clock watchdog)" % w)
-        logf.close()
-        if not os.path.exists(out):
-            tail = open(os.path.join(tmp, "w%d.log" % w)).read()[-3000:]
-            print(tail)
-            die("worker %d produced no result (exit %s)" % (w, p.returncode))
-        with open(out) as f:
-            o = json.load(f)
-        o["_log"] = os.path.join(tmp, "w%d.log" % w)
-        outs.append(o)
+    pending = list(tasks)
+
+    def reap(block):
+        for item in list(running):
+            p, out, logf, w = item
+            if block:
+                try:
+                    p.wait(timeout=max(1, deadline - time.time()))
+                except subprocess.TimeoutExpired:
+                    p.kill()
+                    die("worker %d wedged (wall-clock watchdog)" % w)
+            elif p.poll() is None:
+                continue
+            running.remove(item)
+            logf.close()
+            if not os.path.exists(out):
+                tail = open(os.path.join(tmp, "w%d.log" % w)).read()[-3000:]
+                print(tail)
+                die("worker %d produced no result (exit %s)" % (w, p.returncode))
+            with open(out) as f:
+                o = json.load(f)
+            o["_log"] = os.path.join(tmp, "w%d.log" % w)
+            outs.append(o)
+            if block:
+                return
+
+    while pending or running:
+        while pending and len(running) < NPROC:
+            w, frm, cnt = pending.pop(0)
+            left = int(t_end - time.time())
+            if left <= 0:
+                pending = []
+                break
+            env = dict(env0)
+            out = os.path.join(tmp, "w%d.json" % w)
+            env.update({"VERIF_FROM": str(frm), "VERIF_COUNT": str(cnt), "VERIF_OUT": out, "VERIF_BUDGET_S": str(left),
+                        "GOMAXPROCS": str([1, 2, 4, 16][w % 4])})
+            logf = open(os.path.join(tmp, "w%d.log" % w), "w")
+            p = subprocess.Popen([binp, "-test.run", "^TestWorker$", "-test.timeout", "0"], env=env, stdout=logf, stderr=subprocess.STDOUT, cwd=tmp)
+            running.append((p, out, logf, w))
+        if running:
+            reap(False)
+            if len(running) >= NPROC or not pending:
+                time.sleep(0.05)
     return outs
 
 
